@@ -127,18 +127,19 @@ type Sim struct {
 	changeAt  map[int]bool
 	schedHash uint64
 	// statistics
-	MaxEnabled  int
-	Switches    int
-	SwitchPairs map[string]struct{}
-	Trace       []string // first scheduling decisions, for samples
-	TraceAll    bool
-	recent      [16]string // ring of the last scheduling decisions
-	SimTime     time.Duration
-	nroot       int
-	nativeAny   bool
-	afSeq       int
-	conds       map[*sync.Cond][]*condWaiter
-	timers      []time.Time // deadlines of timers created by instrumented library code
+	MaxEnabled   int
+	Switches     int
+	SwitchPairs  map[string]struct{}
+	Trace        []string // first scheduling decisions, for samples
+	TraceAll     bool
+	AutoAdvances int        // times the clock was moved to a library timer
+	recent       [16]string // ring of the last scheduling decisions
+	SimTime      time.Duration
+	nroot        int
+	nativeAny    bool
+	afSeq        int
+	conds        map[*sync.Cond][]*condWaiter
+	timers       []time.Time // deadlines of timers created by instrumented library code
 }
 
 var cur atomic.Pointer[Sim]
@@ -525,6 +526,13 @@ func (s *Sim) SchedHash() uint64 { return s.schedHash }
 // Run schedules until no goroutine is enabled, the step cap is hit or a
 // goroutine panics. Scheduler goroutine only.
 func (s *Sim) Run() Outcome {
+	// Library timers are served while they are short-lived work in progress: at
+	// most AutoAdvanceMax advances and AutoAdvanceBudget of simulated time per
+	// call. A library that keeps re-arming a timer (a periodic log line, a poll
+	// loop) must not keep the workload from ever seeing a quiescent point: then
+	// Run reports quiescence with the timers still pending, and the next call
+	// serves them again.
+	advN, advT := 0, time.Duration(0)
 	for {
 		synctest.Wait()
 		if s.PanicMsg != "" {
@@ -543,9 +551,12 @@ func (s *Sim) Run() Outcome {
 		if len(en) == 0 {
 			// nothing can run: if the library itself is waiting on a timer, move
 			// the fake clock to the earliest one and look again
-			if d, ok := s.nextTimer(); ok {
+			if d, ok := s.nextTimer(); ok && advN < AutoAdvanceMax && advT+d <= AutoAdvanceBudget {
+				advN++
+				advT += d
 				time.Sleep(d)
 				s.SimTime += d
+				s.AutoAdvances++
 				continue
 			}
 			return Quiescent
@@ -721,3 +732,9 @@ func (s *Sim) RecentSites(n int) string {
 	}
 	return strings.Join(out, " ")
 }
+
+// Limits of the automatic clock advance to library timers, per Run call.
+var (
+	AutoAdvanceMax    = 40
+	AutoAdvanceBudget = 30 * time.Second
+)
